@@ -743,8 +743,12 @@ class Binding:
     def isinstance_hook(self, sx, obj, cname):
         return None
 
-    def make(self, model, what, **kw):
-        sx = Symex(model, inline=lambda q: True, hooks=self.hooks(), what=what, attr_hook=self.attr, assume_asserts=False,
+    def make(self, model, what, extra_hooks=None, no_hooks=(), inline=None, **kw):
+        hooks = self.hooks()
+        for k in no_hooks:
+            hooks.pop(k, None)
+        hooks.update(extra_hooks or {})
+        sx = Symex(model, inline=inline or (lambda q: True), hooks=hooks, what=what, attr_hook=self.attr, assume_asserts=False,
                    **kw)
         sx.binop_hook = self.binop
         sx.compare_hook = self.compare
